@@ -358,8 +358,13 @@ def finish(mod, tier, seed, st, t0):
     confirmed = []
     flaky = []
     seen_sig = set()
+    skipped = 0
     for v in real:
         if v["sig"] in seen_sig and len(confirmed) >= 5:
+            continue
+        if len(confirmed) >= 8:
+            # enough reproduced violations for a verdict: the remaining candidates are not re-executed
+            skipped += 1
             continue
         seen_sig.add(v["sig"])
         oks = []
@@ -386,6 +391,8 @@ def finish(mod, tier, seed, st, t0):
             confirmed.append(v)
         else:
             flaky.append((v, oks))
+    if skipped:
+        st.extra["candidates_not_re_executed"] = skipped
     herr = st.extra.get("harness_errors")
     cov = {
         "evaluations": int(st.evaluations),
